@@ -277,6 +277,60 @@ def rule_factors_model(chk, tree):
     return len(cases)
 
 
+def rule_dt_adapt_model(chk, tree):
+    """Integrator._get_explicit_dt_adapt interpreted (E8) over a *history* on one integrator object: the particle data changes between calls (a new particle whose dt_adapt is
+    still 0, then positive values again, an array that gets particles later); each call must answer from the data as it is then - the smallest positive-tested dt_adapt over the
+    real particles of the arrays that have the property, None when that minimum is not positive"""
+    from verif_static import emit as EM, absint as AI
+    cls = M.find_class(tree, 'Integrator')
+    fn = M.find_func(cls, '_get_explicit_dt_adapt')
+    saved = dict((k, AI.EXTERNAL_CALLS.get(k)) for k in ('numpy.min', 'numpy.amin', 'compyle.array.minimum'))
+    AI.EXTERNAL_CALLS['numpy.min'] = AI.EXTERNAL_CALLS['numpy.amin'] = lambda i, a, k, n, e: min(a[0])
+    AI.EXTERNAL_CALLS['compyle.array.minimum'] = lambda i, a, k, n, e: min(a[0])
+    INF = float('inf')
+
+    def arr(name, values, has=True):
+        data = {'v': list(values)}
+        props = {'x': 1, 'dt_adapt': 1} if has else {'x': 1}
+        m = EM.mock(name=name, gpu=None, properties=props, get_number_of_particles=lambda i, a, k, n, e: len(data['v']))
+        m.attrs['dt_adapt'] = data['v']
+        return m, data
+    bad, und, ncalls = None, None, 0
+    try:
+        it = EM.interpreter()
+        a1, d1 = arr('fluid', [0.5, 0.3])
+        a2, d2 = arr('wall', [], has=False)
+        a3, d3 = arr('inlet', [])
+        integ = EM.instance(it, INT, 'Integrator', acceleration_evals=[EM.mock(particle_arrays=[a2, a1, a3])], _has_dt_adapt=None)
+        HISTORY = [([0.5, 0.3], [], 0.3), ([0.5, 0.0, 0.3], [], None), ([0.5, 0.2, 0.3], [], 0.2), ([0.5, 0.2, 0.3], [0.05], 0.05), ([0.0, 0.0], [0.0], None), ([0.7, 0.9], [], 0.7)]
+        for v1, v3, want in HISTORY:
+            d1['v'][:] = v1
+            d3['v'][:] = v3
+            try:
+                got = EM.call(it, integ, '_get_explicit_dt_adapt')
+            except AI.Unsupported as ex:
+                und = 'step %d: %s' % (ncalls, ex)
+                break
+            ncalls += 1
+            same_ = (got is None and want is None) or (got is not None and want is not None and not AI.unknown(got) and float(got) == want)
+            if not same_ and bad is None:
+                bad = (ncalls, v1, v3, got, want)
+    finally:
+        for k, v in saved.items():
+            if v is None:
+                AI.EXTERNAL_CALLS.pop(k, None)
+            else:
+                AI.EXTERNAL_CALLS[k] = v
+    if und:
+        chk.undecided('dt-adapt-override', 'history:model-run', node=fn, file=INT, func='_get_explicit_dt_adapt', detail='not interpretable on the model: ' + und)
+    else:
+        chk.decide(bad is None, 'dt-adapt-override', 'history:model-run', node=fn, file=INT, func='_get_explicit_dt_adapt',
+                   detail_bad='call %s of a history on one integrator (fluid dt_adapt = %s, inlet dt_adapt = %s, the wall has no such property) returns %s, the data then demands %s: an '
+                              'answer remembered from an earlier state of the particles overrides what they say now' % (bad or ('', '', '', '', '')),
+                   detail_ok='%d calls over a history with zero, positive and newly added values' % ncalls)
+    return ncalls
+
+
 def rule_hmin_model(chk, tree):
     """Integrator.compute_h_minimum interpreted (E8) on model arrays: h_minimum is the smallest h over every array that holds particles (whatever their tag - "the
     smallest smoothing length"), read from a minimum refreshed in this call; arrays without particles are skipped (the cached minimum of an empty array is meaningless)"""
@@ -693,6 +747,7 @@ def main(chk):
     chk.floor('cached min/max reads in integrator.py', n, 1)
     rule_provenance(chk, t)
     chk.floor('model runs of compute_h_minimum', rule_hmin_model(chk, t), 40)
+    chk.floor('calls in the dt_adapt history', rule_dt_adapt_model(chk, t), 6)
     rule_fallback(chk)
     rule_consulted_every_step(chk)
     units = [INT, SOL]
